@@ -74,6 +74,23 @@ func (t Task) run() (string, int) {
 			out += fmt.Sprintf(" cert-valid=%v", bad < 0 && refuted)
 		}
 		return out, res.Stats.NbConflicts
+	case "append-solve":
+		s := solver.New(solver.ParseSliceNb(oracle.CloneCNF(t.Clauses), t.N))
+		all := oracle.CloneCNF(t.Clauses)
+		for _, cl := range t.Many {
+			ls := make([]solver.Lit, len(cl[0]))
+			for i, l := range cl[0] {
+				ls[i] = solver.IntToLit(int32(l))
+			}
+			s.AppendClause(solver.NewClause(ls))
+			all = append(all, cl[0])
+		}
+		st := s.Solve()
+		out := st.String()
+		if st == solver.Sat {
+			out += fmt.Sprintf(" model-valid=%v", oracle.ModelSatisfies(all, s.Model()) < 0)
+		}
+		return out + fmt.Sprintf(" truth=%v", oracle.CNFSat(t.N+3, all)), s.Stats.NbConflicts
 	case "solve-many":
 		out, nc := "", 0
 		for _, cls := range t.Many {
@@ -366,14 +383,38 @@ func raceError(when, rep string) error {
 	return fmt.Errorf("%d data race report(s) %s; gophersat frames: %s", n, when, strings.Join(frames, " | "))
 }
 
+// refuteAtParseTime makes, one time in six, the formula of the task unsatisfiable in a way the parser itself notices
+// (two opposite unit clauses, or an empty clause): solvers of such problems are built along a different path.
+func refuteAtParseTime(t *rapid.T, tk *Task) {
+	if !gen.Chance(t, 1, 6, "parseUnsat") {
+		return
+	}
+	if rapid.Bool().Draw(t, "emptyClause") {
+		tk.Clauses = append(tk.Clauses, []int{})
+	} else {
+		l := gen.Lit(t, tk.N, "u")
+		tk.Clauses = append(tk.Clauses, []int{l}, []int{-l})
+	}
+	tk.Clauses = rapid.Permutation(tk.Clauses).Draw(t, "order")
+}
+
 func genTask(t *rapid.T) Task {
-	kind := rapid.SampledFrom([]string{"solve", "solve", "cert-solve", "count", "enumerate-chan", "cp-solve", "cp-solve-heavy", "cp-solve-heavy", "solve-many", "solve-many", "opb-optimal", "optimal-chan", "wcnf", "maxsat-api", "unsat-subset", "mus-deletion", "mus-insertion", "mus-maxsat", "bf-solve", "bf-dimacs"}).Draw(t, "kind")
+	kind := rapid.SampledFrom([]string{"solve", "solve", "cert-solve", "count", "enumerate-chan", "append-solve", "cp-solve", "cp-solve-heavy", "cp-solve-heavy", "solve-many", "solve-many", "opb-optimal", "optimal-chan", "wcnf", "maxsat-api", "unsat-subset", "mus-deletion", "mus-insertion", "mus-maxsat", "bf-solve", "bf-dimacs"}).Draw(t, "kind")
 	tk := Task{Kind: kind}
 	switch kind {
 	case "solve", "cert-solve":
 		tk.N, tk.Clauses, _ = gen.FormulaHardSmall(t)
+		refuteAtParseTime(t, &tk)
 	case "count", "enumerate-chan":
 		tk.N, tk.Clauses = gen.SmallCNF(t, gen.CNFOpts{MinN: 6, MaxN: 10, MaxRatio: 2, MaxLen: 3})
+		refuteAtParseTime(t, &tk)
+	case "append-solve":
+		// a solver that is given more clauses after it was built (new variables included), then solves
+		tk.N, tk.Clauses = gen.SmallCNF(t, gen.CNFOpts{MinN: 3, MaxN: 8, MaxRatio: 3, MaxLen: 3})
+		refuteAtParseTime(t, &tk)
+		for i, k := 0, gen.Uniform(t, 1, 5, "appended"); i < k; i++ {
+			tk.Many = append(tk.Many, [][]int{gen.DistinctLits(t, tk.N+3, gen.Uniform(t, 1, 3, "alen"), "a")})
+		}
 	case "solve-many":
 		// a worker that keeps building solvers (New) and solving small problems while the other tasks run: what a
 		// server answering many queries does. Reads of process-wide state made by New happen all along the round.
@@ -518,7 +559,7 @@ func init() {
 	vf.Register(vf.Sub[Case]{Name: "fresh-process", Quick: 20, Thorough: 400, Gen: genFresh, Check: checkFresh, Floor: 0.6,
 		Rule: "as concurrent-mix, but every round runs in a process of its own (the test binary re-executed on the serialised case, race detector on, its report file read by the child) with the concurrent phase first, and always holds a cutting-planes Solve on threshold 3-SAT with 100..140 variables (Luby restarts: >= 512 conflicts in most) next to 1..5 other tasks: state that the library fills on demand once per process is then first written while other goroutines use the library; non-trivial = the heavy cutting-planes task plus >= 1 other task of a kind that performs search"})
 	vf.Register(vf.Sub[Case]{Name: "concurrent-mix", Quick: 150, Thorough: 2500, Gen: genCase, Check: check, Floor: 0.3, Journal: true,
-		Rule: "k in 2..8 data-independent tasks drawn from: Solve / certified Solve on parity and pigeonhole formulas (tens of conflicts), CountModels, Enumerate with a model channel, DetectAtMostOne + cutting-planes Solve, cutting-planes Solve on threshold 3-SAT with 90..130 variables (>= 512 conflicts, Luby restarts), a worker that builds and solves 40..200 small problems in a row, ParseOPB + Optimal, Optimal with result channel (the consumer keeps and re-reads the models) on weighted vertex cover, ParseWCNF+Optimal, maxsat.New+Solve, UnsatSubset, MUSDeletion, MUSInsertion, MUSMaxSat, bf.Solve, bf.Dimacs; GOMAXPROCS in {2,4,16}; in half of the rounds the learned-clause limit of all solvers is lowered (3..40) so that clause-database reductions happen inside the runs; in half of the rounds the concurrent phase comes first; every task's outcome (verdict, model validity, count, optimum, certificate validity, extracted subset) is first computed with the tasks run one after the other, then all tasks are started together and must return the same outcome; the binary is built with -race and the detector's report file is read after each phase: any report is a failure; non-trivial = >=2 tasks with >=1 conflict each. The schedule is not owned by the harness: each round is one sample of the interleavings"})
+		Rule: "k in 2..8 data-independent tasks drawn from: Solve / certified Solve on parity and pigeonhole formulas (tens of conflicts), CountModels, Enumerate with a model channel, DetectAtMostOne + cutting-planes Solve, cutting-planes Solve on threshold 3-SAT with 90..130 variables (>= 512 conflicts, Luby restarts), a worker that builds and solves 40..200 small problems in a row, a solver that is given 1..5 more clauses (new variables included) before solving; one formula in six of the solve / count / enumerate / append tasks is refuted while it is parsed (opposite unit clauses or an empty clause), ParseOPB + Optimal, Optimal with result channel (the consumer keeps and re-reads the models) on weighted vertex cover, ParseWCNF+Optimal, maxsat.New+Solve, UnsatSubset, MUSDeletion, MUSInsertion, MUSMaxSat, bf.Solve, bf.Dimacs; GOMAXPROCS in {2,4,16}; in half of the rounds the learned-clause limit of all solvers is lowered (3..40) so that clause-database reductions happen inside the runs; in half of the rounds the concurrent phase comes first; every task's outcome (verdict, model validity, count, optimum, certificate validity, extracted subset) is first computed with the tasks run one after the other, then all tasks are started together and must return the same outcome; the binary is built with -race and the detector's report file is read after each phase: any report is a failure; non-trivial = >=2 tasks with >=1 conflict each. The schedule is not owned by the harness: each round is one sample of the interleavings"})
 }
 
 func TestMain(m *testing.M)   { vf.Main(m, "C16") }
